@@ -26,8 +26,17 @@ META = dict(
 
 EXTRA = ["by_cref(Wrap(%d))", "by_value(Wrap(%d))", "pr(by_cref(Wrap(%d)) + by_cref(Wrap(%d)))", "var u%d = make_up(%d); pr(u%d.get())", "var w%d = owned_ref(); w%d.set(%d)", "var &q%d = owned_ref(); pr(q%d.get())",
          "def g%d() { by_cref(Wrap(%d)); return T(%d) }; var z%d = g%d()", "var m%d = [\"k\": T(%d)]; pr(m%d[\"k\"].get())", "pr(nosuch%d)", "var p%d = Pair(T(%d), T(%d))" if False else "pr(T(%d).get() + T(%d).get())",
+         "pr(Holder(%d).inner.get())", "pr(make_holder(%d).inner.get())", "Holder(%d).inner.set(5)", "var hh%d = Holder(%d); pr(hh%d.inner.get()); var &ri%d = hh%d.inner; pr(ri%d.get())",
+         "pr(inner_of(Holder(%d)).get())" if False else "pr(Holder(%d).inner.ident() > 0)", "pr(by_cref(Holder(%d).inner))", "pr(by_value(make_holder(%d).inner))",
+         "var cc%d = make_holder(%d).inner; pr(cc%d.get())", "auto ca%d = Holder(%d).inner; pr(ca%d.get())", "def gh%d() { return make_holder(%d).inner }; var qh%d = gh%d(); pr(qh%d.get())",
+         "var vh%d = [make_holder(%d).inner]; pr(vh%d[0].get())", "var cd%d; cd%d = make_holder(%d).inner; pr(cd%d.get())", "if (make_holder(%d).inner.get() > 0) { pr(1) }",
+         "var &rh%d = make_holder(%d).inner; pr(rh%d.get())",
          "var vv%d = [T(%d), T(%d)]; vv%d.pop_back(); vv%d.clear()", "var lf%d = fun() { 0 }; for (var i = 0; i < 3; ++i) { lf%d = fun[i]() { i } }; pr(lf%d())",
          "var lg%d = fun() { 0 }; for (var i = 0; i < 3; ++i) { var tt = T(%d); lg%d = fun[i, tt]() { i + tt.get() } }; pr(lg%d()); pr(lg%d())", "var s%d = T(%d); s%d = T(%d)", "var c%d = bind(fun(x) { x.get() }, T(%d)); pr(c%d())"]
+
+
+import re
+REF_TO_TMP_MEMBER = re.compile(r"var &\w+ = (make_holder|Holder)\(\d+\)\.inner")
 
 
 def strip900(s):
@@ -95,6 +104,8 @@ def run(ctx):
     for (t, fa), o in zip(extra, out2):
         f = fields(o)
         bad = None
+        if (o.startswith("crash") or f.get("events", "") or f.get("events_end", "")) and REF_TO_TMP_MEMBER.search(t) and ctx.known_finding("REFERENCE_INTO_TEMPORARY_MEMBER", t[-200:]):
+            continue
         if o.startswith("crash"):
             bad = "the engine crashed (sanitizer report / abort): " + o[:300]
         elif f.get("events", "") or f.get("events_end", ""):
